@@ -8,7 +8,7 @@ use crate::dto::{self, List, Timestamp, TimestampFormat};
 use std::fmt;
 
 use quick_xml::Reader;
-use quick_xml::events::{BytesEnd, BytesStart, BytesText, Event};
+use quick_xml::events::{BytesCData, BytesEnd, BytesStart, BytesText, Event};
 use stdx::str::StrExt;
 
 /// A data type that can be deserialized with AWS restXml deserializer
@@ -89,6 +89,8 @@ enum DeEvent<'xml> {
     End(BytesEnd<'xml>),
     /// text
     Text(BytesText<'xml>),
+    /// CDATA section
+    CData(BytesCData<'xml>),
     /// eof
     Eof,
 }
@@ -115,6 +117,7 @@ impl<'xml> Deserializer<'xml> {
                 Event::Start(x) => DeEvent::Start(x),
                 Event::End(x) => DeEvent::End(x),
                 Event::Text(x) => DeEvent::Text(x),
+                Event::CData(x) => DeEvent::CData(x),
                 Event::Eof => DeEvent::Eof,
 
                 Event::Empty(x) => {
@@ -124,7 +127,7 @@ impl<'xml> Deserializer<'xml> {
                 }
 
                 // ignore the others
-                Event::Comment(_) | Event::CData(_) | Event::Decl(_) | Event::PI(_) | Event::DocType(_) => continue,
+                Event::Comment(_) | Event::Decl(_) | Event::PI(_) | Event::DocType(_) => continue,
             };
             break Ok(de);
         }
@@ -163,7 +166,7 @@ impl<'xml> Deserializer<'xml> {
                     return Ok(());
                 }
                 DeEvent::End(_) => return Err(unexpected_end()),
-                DeEvent::Text(_) => continue,
+                DeEvent::Text(_) | DeEvent::CData(_) => continue,
                 DeEvent::Eof => return Err(unexpected_eof()),
             }
         }
@@ -180,7 +183,7 @@ impl<'xml> Deserializer<'xml> {
                     }
                     return Ok(());
                 }
-                DeEvent::Text(_) => continue,
+                DeEvent::Text(_) | DeEvent::CData(_) => continue,
                 DeEvent::Eof => return Err(unexpected_eof()),
             }
         }
@@ -192,7 +195,7 @@ impl<'xml> Deserializer<'xml> {
             match self.next_event()? {
                 DeEvent::Start(_) => return Err(unexpected_start()),
                 DeEvent::End(_) => return Err(unexpected_end()),
-                DeEvent::Text(_) => continue,
+                DeEvent::Text(_) | DeEvent::CData(_) => continue,
                 DeEvent::Eof => return Ok(()),
             }
         }
@@ -219,7 +222,7 @@ impl<'xml> Deserializer<'xml> {
                     self.expect_end(name.as_ref())?;
                     return Ok(ans);
                 }
-                DeEvent::Text(_) => {
+                DeEvent::Text(_) | DeEvent::CData(_) => {
                     self.consume_peeked();
                 }
                 DeEvent::End(_) | DeEvent::Eof => {
@@ -245,7 +248,7 @@ impl<'xml> Deserializer<'xml> {
 
                     continue;
                 }
-                DeEvent::Text(_) => {
+                DeEvent::Text(_) | DeEvent::CData(_) => {
                     self.consume_peeked();
                     continue;
                 }
@@ -261,23 +264,51 @@ impl<'xml> Deserializer<'xml> {
     /// # Errors
     /// Returns an error if the deserialization fails.
     pub fn text<T>(&mut self, f: impl FnOnce(BytesText<'xml>) -> DeResult<T>) -> DeResult<T> {
-        match self.peek_event()? {
-            DeEvent::Start(_) => {
-                self.consume_peeked();
-                Err(unexpected_start())
-            }
-            DeEvent::End(_) => {
-                f(BytesText::from_escaped("")) //
-            }
-            DeEvent::Text(x) => {
-                self.consume_peeked();
-                f(x)
-            }
-            DeEvent::Eof => {
-                self.consume_peeked();
-                Err(unexpected_eof())
+        // The character data of an element is all of its text and CDATA sections up to the end tag.
+        // Comments and processing instructions (already skipped) may split it into several events.
+        let mut single: Option<BytesText<'xml>> = None;
+        let mut joined: Option<String> = None;
+        loop {
+            match self.peek_event()? {
+                DeEvent::Start(_) => {
+                    self.consume_peeked();
+                    return Err(unexpected_start());
+                }
+                DeEvent::Eof => {
+                    self.consume_peeked();
+                    return Err(unexpected_eof());
+                }
+                DeEvent::End(_) => break,
+                DeEvent::Text(x) => {
+                    self.consume_peeked();
+                    if single.is_none() && joined.is_none() {
+                        single = Some(x);
+                        continue;
+                    }
+                    let buf = Self::joined_text(&mut single, &mut joined)?;
+                    buf.push_str(&x.unescape().map_err(invalid_xml)?);
+                }
+                DeEvent::CData(x) => {
+                    self.consume_peeked();
+                    let buf = Self::joined_text(&mut single, &mut joined)?;
+                    buf.push_str(std::str::from_utf8(x.as_ref()).map_err(|_| DeError::InvalidContent)?);
+                }
             }
         }
+        match (single, joined) {
+            (_, Some(s)) => f(BytesText::from_escaped(quick_xml::escape::escape(s.as_str()).into_owned())),
+            (Some(x), None) => f(x),
+            (None, None) => f(BytesText::from_escaped("")),
+        }
+    }
+
+    /// Moves the first text piece (if any) into the joined buffer and returns the buffer
+    fn joined_text<'a>(single: &mut Option<BytesText<'xml>>, joined: &'a mut Option<String>) -> DeResult<&'a mut String> {
+        let buf = joined.get_or_insert_with(String::new);
+        if let Some(x) = single.take() {
+            buf.push_str(&x.unescape().map_err(invalid_xml)?);
+        }
+        Ok(buf)
     }
 
     /// Deserializes the content of a field
